@@ -113,10 +113,34 @@ func (x *Exec) fresh(prefix string, s Sort) Term {
 // newRef allocates a reference: a concrete negative integer, distinct from null (0), from every
 // other allocation of this unit and from every reference of the pre-state (those are >= 0).
 func (x *Exec) newRef(st *State, prefix string) Term {
-	x.nref++
-	t := Term{fmt.Sprintf("(- %d)", x.nref), SInt}
-	st.names["$fresh:"+t.S] = true
+	// allocation pointer: every reference allocated so far lies in [alloc, 0); the next one is alloc-1.
+	cur, _ := st.names["$alloc"].(Term)
+	if cur.S == "" {
+		cur = intLit(0)
+	}
+	var t Term
+	if isNumLit(cur.S) {
+		n := new(bigInt)
+		n.SetString(strings.TrimSuffix(strings.TrimPrefix(cur.S, "(- "), ")"), 10)
+		if strings.HasPrefix(cur.S, "(- ") {
+			n.Neg(n)
+		}
+		n.Sub(n, bigOne)
+		t = bigLit(n)
+	} else {
+		t = Term{"(- " + cur.S + " 1)", SInt}
+	}
+	st.names["$alloc"] = t
 	return t
+}
+
+// freshCond: x was allocated by this unit (alloc <= x < 0; pre-state references are >= 0).
+func (x *Exec) freshCond(st *State, v Term) string {
+	cur, _ := st.names["$alloc"].(Term)
+	if cur.S == "" {
+		cur = intLit(0)
+	}
+	return "(and (< " + v.S + " 0) (<= " + cur.S + " " + v.S + "))"
 }
 
 // uf applies an uninterpreted function, declaring it on first use.
@@ -363,16 +387,24 @@ func (x *Exec) fieldRead(st *State, owner types.Type, f *types.Var, ref Term) Te
 	key := x.fieldKey(owner, f)
 	arr := x.heapGet(st, key, arraySort(SInt, fs))
 	if strings.HasPrefix(arr.S, "(store ") && !strings.Contains(arr.S, "\"") {
-		if fs == SInt && isRefType(f.Type()) && !x.underBinder(ref.S) {
+		if fs == SInt && isRefType(f.Type()) {
 			x.heapGet(newState(), key, arraySort(SInt, fs))
-			x.declare("(assert (>= (select "+key+"_0 "+ref.S+") 0))", "ax_ref_"+key+":"+ref.S)
+			if !x.underBinder(ref.S) {
+				x.declare("(assert (>= (select "+key+"_0 "+ref.S+") 0))", "ax_ref_"+key+":"+ref.S)
+			} else {
+				x.declare("(assert (forall ((r Int)) (! (>= (select "+key+"_0 r) 0) :pattern ((select "+key+"_0 r)))))", "ax_ref_all_"+key)
+			}
 		}
 		return Term{selectSimp(arr.S, ref.S), fs}
 	}
-	if fs == SInt && isRefType(f.Type()) && !x.underBinder(ref.S) {
+	if fs == SInt && isRefType(f.Type()) {
 		// references stored in the pre-state heap are pre-state references (>= 0)
 		x.heapGet(newState(), key, arraySort(SInt, fs))
-		x.declare("(assert (>= (select "+key+"_0 "+ref.S+") 0))", "ax_ref_"+key+":"+ref.S)
+		if !x.underBinder(ref.S) {
+			x.declare("(assert (>= (select "+key+"_0 "+ref.S+") 0))", "ax_ref_"+key+":"+ref.S)
+		} else {
+			x.declare("(assert (forall ((r Int)) (! (>= (select "+key+"_0 r) 0) :pattern ((select "+key+"_0 r)))))", "ax_ref_all_"+key)
+		}
 	}
 	return Term{"(select " + arr.S + " " + ref.S + ")", fs}
 }
@@ -414,18 +446,28 @@ func (x *Exec) copyStruct(st *State, t types.Type, dst, src Term) {
 	}
 }
 
-func (x *Exec) seKey(es Sort) string { return "SE_" + sanitize(string(es)) }
+// seKey names the heap of slice contents. Slices of different element types cannot alias, so each
+// non-basic element type has its own heap (basic element types share one per sort).
+func (x *Exec) seKey(es Sort, et ...types.Type) string {
+	k := "SE_" + sanitize(string(es))
+	if len(et) > 0 && et[0] != nil && es == SInt {
+		if _, basic := et[0].Underlying().(*types.Basic); !basic {
+			k += "_" + sanitize(types.TypeString(et[0], func(p *types.Package) string { return p.Name() }))
+		}
+	}
+	return k
+}
 
-func (x *Exec) sliceArr(st *State, h Term, es Sort) Term {
-	se := x.heapGet(st, x.seKey(es), arraySort(SInt, arraySort(SInt, es)))
+func (x *Exec) sliceArr(st *State, h Term, es Sort, et ...types.Type) Term {
+	se := x.heapGet(st, x.seKey(es, et...), arraySort(SInt, arraySort(SInt, es)))
 	if strings.HasPrefix(se.S, "(store ") && !strings.Contains(se.S, "\"") {
 		return Term{selectSimp(se.S, h.S), arraySort(SInt, es)}
 	}
 	return Term{"(select " + se.S + " " + h.S + ")", arraySort(SInt, es)}
 }
 
-func (x *Exec) sliceSetArr(st *State, h Term, es Sort, arr Term) {
-	key := x.seKey(es)
+func (x *Exec) sliceSetArr(st *State, h Term, es Sort, arr Term, et ...types.Type) {
+	key := x.seKey(es, et...)
 	se := x.heapGet(st, key, arraySort(SInt, arraySort(SInt, es)))
 	st.heap[key] = Term{"(store " + se.S + " " + h.S + " " + arr.S + ")", se.Sort}
 }
@@ -454,12 +496,11 @@ func (x *Exec) slen(h Term) Term {
 	return Term{"(slen " + h.S + ")", SInt}
 }
 
-func (x *Exec) newSlice(st *State, n Term, es Sort, arr *Term) Term {
+func (x *Exec) newSlice(st *State, n Term, es Sort, arr *Term, et ...types.Type) Term {
 	h := x.newRef(st, "sl")
-	st.names["$fresh:"+h.S] = true
 	st.assume("(= " + x.slen(h).S + " " + n.S + ")")
 	if arr != nil {
-		x.sliceSetArr(st, h, es, *arr)
+		x.sliceSetArr(st, h, es, *arr, et...)
 	}
 	return h
 }
@@ -789,6 +830,9 @@ func (x *Exec) evalObject(o types.Object, st *State) (Value, types.Type) {
 			} else {
 				t := x.declConst("cap_"+o.Name(), x.sortOf(o.Type()))
 				x.rangeAssume(st, t, o.Type())
+				if t.Sort == SInt && isRefType(o.Type()) {
+					x.declare("(assert (>= "+t.S+" 0))", "cap_ref_"+o.Name()) // a captured handle exists before the closure runs
+				}
 				v = t
 			}
 			st.env[o] = v
@@ -834,7 +878,7 @@ func (x *Exec) tableAssume(st *State, o *types.Var, v Term) {
 			}
 			arr = "(store " + arr + " " + asIndex(k).S + " " + vv.S + ")"
 		}
-		se := x.heapGet(st, x.seKey(es), arraySort(SInt, arraySort(SInt, es)))
+		se := x.heapGet(st, x.seKey(es, at.Elem()), arraySort(SInt, arraySort(SInt, es)))
 		x.declare("(assert (= (select "+se.S+" "+v.S+") "+arr+"))", name)
 		x.noteAssume("package-level table " + o.Name() + " is never assigned after its initialiser (checked syntactically)")
 		return
@@ -1291,11 +1335,20 @@ func (x *Exec) evalIndex(e *ast.IndexExpr, st *State) (Value, types.Type) {
 		es := x.sortOf(u.Elem())
 		x.safety(st, "index", e, "(and (<= 0 "+idx.S+") (< "+idx.S+" "+x.slen(base).S+"))")
 		x.splitElemFact(base, idx)
-		return Term{"(select " + x.sliceArr(st, base, es).S + " " + idx.S + ")", es}, u.Elem()
+		if es == SInt && isRefType(u.Elem()) {
+			key := x.seKey(es, u.Elem())
+			x.heapGet(newState(), key, arraySort(SInt, arraySort(SInt, es)))
+			if !x.underBinder(base.S) && !x.underBinder(idx.S) {
+				x.declare("(assert (>= (select (select "+key+"_0 "+base.S+") "+idx.S+") 0))", "ax_elem_"+base.S+":"+idx.S)
+			} else {
+				x.declare("(assert (forall ((h Int) (i Int)) (! (>= (select (select "+key+"_0 h) i) 0) :pattern ((select (select "+key+"_0 h) i)))))", "ax_elem_all_"+key)
+			}
+		}
+		return Term{"(select " + x.sliceArr(st, base, es, u.Elem()).S + " " + idx.S + ")", es}, u.Elem()
 	case *types.Array:
 		es := x.sortOf(u.Elem())
 		x.safety(st, "index", e, fmt.Sprintf("(and (<= 0 %s) (< %s %d))", idx.S, idx.S, u.Len()))
-		return Term{"(select " + x.sliceArr(st, base, es).S + " " + idx.S + ")", es}, u.Elem()
+		return Term{"(select " + x.sliceArr(st, base, es, u.Elem()).S + " " + idx.S + ")", es}, u.Elem()
 	case *types.Map:
 		ks, vs := x.sortOf(u.Key()), x.sortOf(u.Elem())
 		has := Term{"(select " + x.mapHas(st, base, ks, vs).S + " " + idx.S + ")", SBool}
@@ -1304,7 +1357,7 @@ func (x *Exec) evalIndex(e *ast.IndexExpr, st *State) (Value, types.Type) {
 	case *types.Pointer:
 		if a, ok := u.Elem().Underlying().(*types.Array); ok {
 			es := x.sortOf(a.Elem())
-			return Term{"(select " + x.sliceArr(st, base, es).S + " " + idx.S + ")", es}, a.Elem()
+			return Term{"(select " + x.sliceArr(st, base, es, a.Elem()).S + " " + idx.S + ")", es}, a.Elem()
 		}
 	}
 	engineFail("unsupported index expression %s on %s", types.ExprString(e), xt)
@@ -1339,12 +1392,13 @@ func (x *Exec) evalSlice(e *ast.SliceExpr, st *State) (Value, types.Type) {
 	x.safety(st, "slice", e, "(and (<= 0 "+lo.S+") (<= "+lo.S+" "+hi.S+") (<= "+hi.S+" "+x.slen(base).S+"))")
 	n := Term{"(- " + hi.S + " " + lo.S + ")", SInt}
 	if lo.S == "0" {
-		arr := x.sliceArr(st, base, es)
-		return x.newSlice(st, n, es, &arr), xt
+		arr := x.sliceArr(st, base, es, sl.Elem())
+		return x.newSlice(st, n, es, &arr, sl.Elem()), xt
 	}
-	h := x.newSlice(st, n, es, nil)
-	src := x.sliceArr(st, base, es)
-	dst := x.sliceArr(st, h, es)
+	dstArr := x.fresh("sliced", arraySort(SInt, es))
+	h := x.newSlice(st, n, es, &dstArr, sl.Elem())
+	src := x.sliceArr(st, base, es, sl.Elem())
+	dst := dstArr
 	st.assume(fmt.Sprintf("(forall ((i Int)) (! (= (select %s i) (select %s (+ i %s))) :pattern ((select %s i))))", dst.S, src.S, lo.S, dst.S))
 	x.noteAssume("slicing s[a:b] with a != 0 yields a snapshot (aliasing with the operand's backing array is not modelled)")
 	return h, xt
@@ -1361,7 +1415,6 @@ func (x *Exec) evalComposite(e *ast.CompositeLit, st *State) (Value, types.Type)
 			return x.fresh("opaque", SInt), t
 		}
 		r := x.newRef(st, "obj")
-		st.names["$fresh:"+r.S] = true
 		set := map[int]bool{}
 		for i, el := range e.Elts {
 			var f *types.Var
@@ -1411,7 +1464,7 @@ func (x *Exec) evalComposite(e *ast.CompositeLit, st *State) (Value, types.Type)
 			v := x.evalT(el, st)
 			arr = Term{fmt.Sprintf("(store %s %d %s)", arr.S, i, v.S), arr.Sort}
 		}
-		return x.newSlice(st, intLit(int64(len(e.Elts))), es, &arr), t
+		return x.newSlice(st, intLit(int64(len(e.Elts))), es, &arr, u.Elem()), t
 	case *types.Map:
 		ks, vs := x.sortOf(u.Key()), x.sortOf(u.Elem())
 		has := Term{"((as const " + string(arraySort(ks, SBool)) + ") false)", arraySort(ks, SBool)}
